@@ -138,6 +138,16 @@ CHECKS = {
         "Single-threaded interleavings only; outcome equality is repr of the AST or exception class + message.",
         "DESIGN.md §6 C20",
     ),
+    "C19": (
+        "Hypothesis generation of filters x layout/case variants from the reference printer + exhaustive keyword x case-pattern table; metamorphic oracle (equal decoded AST up to literal values, equal backend outcome)",
+        "For each accepted filter a variant is printed with random blank runs at required positions, optional blanks "
+        "at the ABNF's BWS positions, random keyword case and case-mangled literal designators (T/Z, e, hex digits, "
+        "duration letters); the variant must decode to the same term up to literal values, and every backend must "
+        "give the same outcome for both spellings (SQLite by execution on generated rows, Django/SQLAlchemy by "
+        "compiled SQL + parameters, standard/Athena text case-insensitively, round-trip by re-parsing).",
+        "Standard and Athena SQL are not executed; leading/trailing blanks of the whole filter are out of scope.",
+        "DESIGN.md §6 C19",
+    ),
 }
 
 ALL = ["C%02d" % i for i in range(1, 21)]
